@@ -30,14 +30,22 @@ type c13lCase struct {
 }
 
 func c13lServer(maxUDP int, rrs []miekgdns.RR) (addr string, tcpQueries *int, stop func(), err error) {
-	tcpL, err := net.Listen("tcp4", "127.0.0.1:0")
-	if err != nil {
-		return "", nil, nil, err
-	}
-	pc, err := net.ListenPacket("udp4", tcpL.Addr().String())
-	if err != nil {
+	// the same port for TCP and UDP: the UDP one may be taken, try another pair then
+	var tcpL net.Listener
+	var pc net.PacketConn
+	for try := 0; ; try++ {
+		tcpL, err = net.Listen("tcp4", "127.0.0.1:0")
+		if err != nil {
+			return "", nil, nil, err
+		}
+		pc, err = net.ListenPacket("udp4", tcpL.Addr().String())
+		if err == nil {
+			break
+		}
 		tcpL.Close()
-		return "", nil, nil, err
+		if try == 50 {
+			return "", nil, nil, err
+		}
 	}
 	n := 0
 	handler := func(udp bool) miekgdns.HandlerFunc {
